@@ -111,6 +111,7 @@ def kindOfTok : String → Option Chunker.Kind
 
 def siteName : Chunker.Site → String
   | .trimSub => "trimSub" | .trimTryFrom => "trimTryFrom" | .drainRange => "drainRange"
+  | .trimIndex => "trimIndex" | .trimOffsetDec => "trimOffsetDec"
   | .takeSub => "takeSub" | .takeTryFrom => "takeTryFrom" | .splitOffRange => "splitOffRange"
   | .fromUtf8 => "fromUtf8" | .readSlice => "readSlice"
 
